@@ -49,6 +49,14 @@ class VStr(V):
         return f'Str({self.s!r})'
 
 
+OPAQUE_STR_MARKS = ('<str>', '<fstring>')
+
+
+def is_opaque_str(v):
+    """formatted strings (f-strings, %, str(), format()) are abstracted to opaque constants: their value is unknown"""
+    return isinstance(v, VStr) and any(m in v.s for m in OPAQUE_STR_MARKS)
+
+
 class VBytes(V):
     def __init__(self, e):
         self.e = e
